@@ -1,6 +1,6 @@
 /-
-Lemmas for C05, part 3: custom chords, items, `Score.from_str` (pieces, the assertion, the
-fallback evaluation, copies made by `+`).
+Lemmas for C05, part 3: custom chords, items, `Score.from_str` (the pieces of the repaired split: one
+per chord).
 -/
 import MV.Lemmas.TextChord
 
@@ -56,8 +56,26 @@ def Item.isPlain : Item → Bool
   | .plain _ => true
   | .custom _ => false
 
+/-- every degree name of the generated table starts with `I` or `V` -/
+theorem degree_syms_cut : ∀ p ∈ DEGREE_TO_STR, (parseDegree p.2).all (fun c => cutSym c.sym) = true := by decide +kernel
+
+theorem tonCode_sym (t : Tonality) (tc : TCode) (h : tonCode t = .ok tc) : cutSym tc.sym = true := by
+  unfold tonCode lookupKey at h
+  cases hl : DEGREE_TO_STR.lookup t.deg with
+  | none => simp [hl, bind, Except.bind] at h
+  | some s =>
+      have hp := degree_syms_cut _ (lookup_mem _ _ _ hl)
+      simp only [hl, bind, Except.bind] at h
+      cases hc : parseDegree s with
+      | none => simp [hc] at h
+      | some c =>
+          simp only [hc, pure, Except.pure] at h
+          injection h with h
+          subst h
+          simpa [hc] using hp
+
 theorem item_code_eval (i : Item) (h : ItemOK i) :
-    ∃ ic, itemCode i = .ok ic ∧ evalItem ic = .ok (rereadItem i) ∧ ic.isPlain = i.isPlain := by
+    ∃ ic, itemCode i = .ok ic ∧ evalItem ic = .ok (rereadItem i) ∧ ic.cutBefore = true := by
   cases i with
   | plain c =>
       obtain ⟨cc, h1, h2⟩ := chord_code_eval c h
@@ -65,77 +83,42 @@ theorem item_code_eval (i : Item) (h : ItemOK i) :
         by simp [evalItem, h2, bind, Except.bind, pure, Except.pure, rereadItem], rfl⟩
   | custom c =>
       obtain ⟨cc, h1, h2⟩ := custom_code_eval c h
-      exact ⟨.custom cc, by simp [itemCode, h1, bind, Except.bind, pure, Except.pure],
-        by simp [evalItem, h2, bind, Except.bind, pure, Except.pure, rereadItem], rfl⟩
+      refine ⟨.custom cc, by simp [itemCode, h1, bind, Except.bind, pure, Except.pure],
+        by simp [evalItem, h2, bind, Except.bind, pure, Except.pure, rereadItem], ?_⟩
+      -- the text of a custom chord starts with the symbol of its tonality
+      have hton : ∃ tc, tonCode c.chord.ton = .ok tc ∧ cc.ton = tc := by
+        unfold customCode at h1
+        cases ht : tonCode c.chord.ton with
+        | error e => simp [ht, bind, Except.bind] at h1
+        | ok tc =>
+            simp only [ht, bind, Except.bind, pure, Except.pure] at h1
+            injection h1 with h1
+            exact ⟨tc, rfl, by rw [← h1]⟩
+      obtain ⟨tc, ht, hcc⟩ := hton
+      have := tonCode_sym _ _ ht
+      simp only [ItemCode.cutBefore, hcc]
+      exact this
 
 /-- the codes of a score, with what each evaluates to -/
 theorem score_codes (s : List Item) (h : ∀ i ∈ s, ItemOK i) :
-    ∃ cs, scoreCodes s = .ok cs ∧ cs.mapM evalItem = .ok (s.map rereadItem) ∧ cs.map ItemCode.isPlain = s.map Item.isPlain
+    ∃ cs, scoreCodes s = .ok cs ∧ (∀ ic ∈ cs, ic.cutBefore = true)
       ∧ List.Forall₂ (fun ic i => evalItem ic = .ok (rereadItem i)) cs s := by
   induction s with
-  | nil => exact ⟨[], rfl, rfl, rfl, List.Forall₂.nil⟩
+  | nil => exact ⟨[], rfl, by simp, List.Forall₂.nil⟩
   | cons i s ih =>
       obtain ⟨ic, h1, h2, h3⟩ := item_code_eval i (h i (by simp))
-      obtain ⟨cs, g1, g2, g3, g4⟩ := ih (fun j hj => h j (by simp [hj]))
-      refine ⟨ic :: cs, ?_, ?_, ?_, List.Forall₂.cons h2 g4⟩
+      obtain ⟨cs, g1, g3, g4⟩ := ih (fun j hj => h j (by simp [hj]))
+      refine ⟨ic :: cs, ?_, ?_, List.Forall₂.cons h2 g4⟩
       · unfold scoreCodes at g1 ⊢
         simp only [List.mapM_cons, h1, g1, bind, Except.bind, pure, Except.pure]
-      · simp only [List.mapM_cons, h2, g2, bind, Except.bind, pure, Except.pure, List.map_cons]
-      · simp [h3, g3]
-
-/-! ### copies made by `+` leave re-read items unchanged -/
-
-theorem copyParts_reread (ps : List (String × Melody)) (h : ∀ p ∈ ps, ∀ n ∈ p.2, Den n.dur) :
-    (rereadParts ps).map (fun p => (p.1, copyMelody p.2)) = rereadParts ps := by
-  unfold rereadParts
-  rw [List.map_map]
-  apply List.map_congr_left
-  intro p hp
-  simp only [Function.comp, rereadMelody]
-  rw [copyMelody_reread p.2 (h p hp)]
-
-theorem partOK_den {p : String × Melody} (h : PartOK p) : ∀ n ∈ p.2, Den n.dur :=
-  fun n hn => (h.1.2 n hn).2.1
-
-theorem copyItem_reread (i : Item) (h : ItemOK i) : copyItem (rereadItem i) = rereadItem i := by
-  cases i with
-  | plain c =>
-      have hp := copyParts_reread c.parts (fun p hp => partOK_den (h.parts p hp))
-      simp only [rereadItem, copyItem, copyChord, copyHead, rereadChord, rereadExt_normalize, tonCopy_id, hp]
-  | custom c =>
-      have hp := copyParts_reread c.chord.parts (fun p hp => partOK_den (h.parts p hp))
-      simp only [rereadItem, copyItem, copyChord, copyHead, rereadCustom, normalize_empty, tonCopy_id, hp]
-
-theorem foldl_sum_fixed (rest acc : List Item) (hacc : ∀ x ∈ acc, copyItem x = x) (hrest : ∀ x ∈ rest, copyItem x = x) :
-    rest.foldl (fun acc c => acc.map copyItem ++ [c]) acc = acc ++ rest := by
-  induction rest generalizing acc with
-  | nil => simp
-  | cons c cs ih =>
-      have hm : acc.map copyItem = acc := by
-        conv_rhs => rw [← List.map_id acc]
-        exact List.map_congr_left (fun x hx => by simp [hacc x hx])
-      simp only [List.foldl_cons, hm]
-      rw [ih (acc ++ [c]) (by
-        intro x hx
-        rcases List.mem_append.mp hx with h | h
-        · exact hacc x h
-        · simp only [List.mem_singleton] at h; subst h; exact hrest _ (by simp))
-        (fun x hx => hrest x (by simp [hx]))]
-      simp
-
-theorem sumItems_fixed (l : List Item) (h : ∀ x ∈ l, copyItem x = x) : sumItems l = l := by
-  match l with
-  | [] => rfl
-  | [a] => rfl
-  | a :: b :: rest =>
-      simp only [sumItems, h a (by simp), h b (by simp)]
-      rw [foldl_sum_fixed rest [a, b] (by intro x hx; exact h x (by simp at hx; rcases hx with rfl | rfl <;> simp))
-        (fun x hx => h x (by simp [hx]))]
-      simp
+      · intro x hx
+        rcases List.mem_cons.mp hx with rfl | hx
+        · exact h3
+        · exact g3 x hx
 
 /-! ### `Score.from_str`: the pieces -/
 
-theorem go_all_plain (x : ItemCode) (ys : List ItemCode) (h : ∀ y ∈ ys, y.isPlain = true) :
+theorem go_all_cut (x : ItemCode) (ys : List ItemCode) (h : ∀ y ∈ ys, y.cutBefore = true) :
     pieces.go [x] ys = [x] :: ys.map (fun y => [y]) := by
   induction ys generalizing x with
   | nil => rfl
@@ -143,81 +126,17 @@ theorem go_all_plain (x : ItemCode) (ys : List ItemCode) (h : ∀ y ∈ ys, y.is
       simp only [pieces.go, h y (by simp), ↓reduceIte, List.reverse_cons, List.reverse_nil, List.nil_append, List.map_cons]
       rw [ih y (fun z hz => h z (by simp [hz]))]
 
-/-- every chord after the first is a plain chord: the text is cut between all chords -/
-theorem pieces_all_plain (cs : List ItemCode) (h : ∀ y ∈ cs.tail, y.isPlain = true) :
+/-- the text is cut between all chords -/
+theorem pieces_all_cut (cs : List ItemCode) (h : ∀ y ∈ cs.tail, y.cutBefore = true) :
     pieces cs = cs.map (fun y => [y]) := by
   cases cs with
   | nil => rfl
-  | cons x rest => simpa [pieces] using go_all_plain x rest h
-
-theorem go_head_length (cur ys : List ItemCode) :
-    ∃ p ps, pieces.go cur ys = p :: ps ∧ cur.length ≤ p.length := by
-  induction ys generalizing cur with
-  | nil => exact ⟨cur.reverse, [], rfl, by simp⟩
-  | cons y ys ih =>
-      by_cases hy : y.isPlain = true
-      · exact ⟨cur.reverse, pieces.go [y] ys, by simp [pieces.go, hy], by simp⟩
-      · obtain ⟨p, ps, h1, h2⟩ := ih (y :: cur)
-        refine ⟨p, ps, by simp [pieces.go, hy, h1], ?_⟩
-        simp only [List.length_cons] at h2
-        omega
-
-/-- the second chord is a custom chord: the first piece holds two chords or more -/
-theorem pieces_second_custom (a b : ItemCode) (rest : List ItemCode) (hb : b.isPlain = false) :
-    ∃ p ps, pieces (a :: b :: rest) = p :: ps ∧ 2 ≤ p.length := by
-  obtain ⟨p, ps, h1, h2⟩ := go_head_length [b, a] rest
-  exact ⟨p, ps, by simp [pieces, pieces.go, hb, h1], by simpa using h2⟩
+  | cons x rest => simpa [pieces] using go_all_cut x rest h
 
 theorem evalPiece_single (ic : ItemCode) (i : Item) (h : evalItem ic = .ok i) : evalPiece [ic] = .ok (.chord i) := by
   simp [evalPiece, List.mapM_cons, List.mapM_nil, h, bind, Except.bind, pure, Except.pure]
 
-theorem mapM_length {α β : Type} (f : α → Res β) (l : List α) (r : List β) (h : l.mapM f = .ok r) : r.length = l.length := by
-  induction l generalizing r with
-  | nil => simp [List.mapM_nil, pure, Except.pure] at h; subst h; rfl
-  | cons x xs ih =>
-      rw [List.mapM_cons] at h
-      cases hx : f x with
-      | error e => simp [hx, bind, Except.bind] at h
-      | ok y =>
-          cases hxs : xs.mapM f with
-          | error e => simp [hx, hxs, bind, Except.bind] at h
-          | ok ys =>
-              simp [hx, hxs, bind, Except.bind, pure, Except.pure] at h
-              subst h
-              simp [ih ys hxs]
-
-/-- a piece of two chords or more is a sum: its value is a score, never a chord -/
-theorem evalPiece_long (p : List ItemCode) (hp : 2 ≤ p.length) (o : Obj) (h : evalPiece p = .ok o) : ∃ l, o = .score l := by
-  unfold evalPiece at h
-  cases hm : p.mapM evalItem with
-  | error e => simp [hm, bind, Except.bind] at h
-  | ok items =>
-      have hl := mapM_length _ _ _ hm
-      simp only [hm, bind, Except.bind] at h
-      match items, hl with
-      | [], hl => simp at hl; omega
-      | [a], hl => simp at hl; omega
-      | a :: b :: r, _ =>
-          simp [pure, Except.pure] at h
-          exact ⟨_, h.symm⟩
-
-/-- when the first piece is a sum, the branch through the pieces never succeeds (exception or failed assertion) -/
-theorem viaPieces_fails (p : List ItemCode) (ps : List (List ItemCode)) (hp : 2 ≤ p.length) :
-    ∀ objs, ((p :: ps).mapM evalPiece >>= fun objs =>
-      match objs with
-      | .chord _ :: _ => (pure objs : Res (List Obj))
-      | _ => .error .assertion) ≠ .ok objs := by
-  intro objs h
-  rw [List.mapM_cons] at h
-  cases h0 : evalPiece p with
-  | error e => simp [h0, bind, Except.bind] at h
-  | ok o =>
-      obtain ⟨l, rfl⟩ := evalPiece_long p hp o h0
-      cases h1 : ps.mapM evalPiece with
-      | error e => simp [h0, h1, bind, Except.bind] at h
-      | ok os => simp [h0, h1, bind, Except.bind, pure, Except.pure] at h
-
-/-- the result of `from_str` when every chord comes back and no nesting happens: the re-read chords, flat -/
+/-- the result of `from_str` when every chord comes back: the re-read chords, flat -/
 def flatResult (s : List Item) : List Obj := s.map (fun i => Obj.chord (rereadItem i))
 
 theorem mapM_singletons (cs : List ItemCode) (s : List Item)
@@ -228,46 +147,15 @@ theorem mapM_singletons (cs : List ItemCode) (s : List Item)
   | cons hx _ ih =>
       simp only [List.map_cons, List.mapM_cons, evalPiece_single _ _ hx, ih, bind, Except.bind, pure, Except.pure, flatResult]
 
-/-- case 1: every chord after the first is plain — the pieces are the chords -/
-theorem fromStr_all_plain (cs : List ItemCode) (s : List Item) (hne : s ≠ [])
+/-- every piece is one chord, the first piece is a chord, the assertion holds: the pieces are the result -/
+theorem fromStr_all_cut (cs : List ItemCode) (s : List Item) (hne : s ≠ [])
     (h : List.Forall₂ (fun ic i => evalItem ic = .ok (rereadItem i)) cs s)
-    (hp : ∀ y ∈ cs.tail, y.isPlain = true) :
+    (hp : ∀ y ∈ cs.tail, y.cutBefore = true) :
     fromStr cs = .ok (flatResult s) := by
   unfold fromStr
-  simp only [pieces_all_plain cs hp, mapM_singletons cs s h, bind, Except.bind]
+  simp only [pieces_all_cut cs hp, mapM_singletons cs s h, bind, Except.bind]
   cases s with
   | nil => exact absurd rfl hne
   | cons i s => simp [flatResult, pure, Except.pure]
-
-/-- case 2: the second chord is a custom chord — the assertion fails and the whole text is evaluated
-as one sum, whose copies change nothing -/
-theorem fromStr_second_custom (a b : ItemCode) (rest : List ItemCode) (s : List Item)
-    (hall : (a :: b :: rest).mapM evalItem = .ok (s.map rereadItem)) (hok : ∀ i ∈ s, ItemOK i)
-    (hb : b.isPlain = false) :
-    fromStr (a :: b :: rest) = .ok (flatResult s) := by
-  obtain ⟨p, ps, hpc, hlen⟩ := pieces_second_custom a b rest hb
-  unfold fromStr
-  simp only [hpc]
-  have hv := viaPieces_fails p ps hlen
-  cases hvia : ((p :: ps).mapM evalPiece >>= fun objs =>
-      match objs with
-      | .chord _ :: _ => (pure objs : Res (List Obj))
-      | _ => .error .assertion) with
-  | ok objs => exact absurd hvia (hv objs)
-  | error e =>
-      simp only [bind, Except.bind] at hvia
-      simp only [bind, Except.bind, hvia, hall]
-      have hlen2 : (s.map rereadItem).length = (a :: b :: rest).length := mapM_length _ _ _ hall
-      have hfix : sumItems (s.map rereadItem) = s.map rereadItem := by
-        apply sumItems_fixed
-        intro x hx
-        obtain ⟨i, hi, rfl⟩ := List.mem_map.mp hx
-        exact copyItem_reread i (hok i hi)
-      cases hs : s.map rereadItem with
-      | nil => rw [hs] at hlen2; simp at hlen2
-      | cons x xs =>
-          rw [hs] at hfix
-          simp only [pure, Except.pure, hfix]
-          simp [flatResult, ← hs]
 
 end MV.Text
